@@ -219,6 +219,10 @@ def scenarios(f: Family) -> List[Tuple[str, List[tuple]]]:
     out.append(("a cell together with one of its other children (overlapping input)", [grp0[-1], ("P", 0)]))
     if f.r - 2 >= 0:
         out.append(("a cell, its first child and that child's first child (overlapping input)", [("G",), ("P", 0), grp0[0]]))
+    else:
+        # G is the world cell (round 11: a filter in front of compact that keeps "ids that decode to a cell" drops it)
+        out.append(("the world cell alone", [("G",)]))
+        out.append(("the world cell given twice", [("G",), ("G",)]))
     lastP = nP - 1
     if 1 <= lastP <= 4 and all((lastP, j) in f.D for j in range(len(f.C[lastP]))):
         deep = [("d", lastP, j, m) for j in range(len(f.C[lastP])) for m in range(len(f.D[(lastP, j)]))]
@@ -242,11 +246,20 @@ def _run_fn(interp, name: str, make_args):
     """one abstract run; when the function iterates over a set of several cells (an order Python does not define in terms of the
     cells), the run is repeated with the opposite order and counts only if both give the same outcome"""
     interp.set_order, interp.set_iterations = "insertion", 0
+    # what the user calls: the function of that name DEFINED in a5/__init__.py (a wrapper around the core function), when there
+    # is one -- the interpreter follows it into the core function -- and the core function otherwise
+    entry = COMPACT
     try:
-        outs = interp.run_function(COMPACT, name, make_args())
+        import ast as _ast
+        if any(isinstance(n, _ast.FunctionDef) and n.name == name for n in interp.sources.tree("a5/__init__.py").body):
+            entry = "a5/__init__.py"
+    except core.AnalysisError:
+        pass
+    try:
+        outs = interp.run_function(entry, name, make_args())
         if interp.set_iterations:
             interp.set_order = "reversed"
-            outs2 = interp.run_function(COMPACT, name, make_args())
+            outs2 = interp.run_function(entry, name, make_args())
 
             def digest(os_):
                 return [(o.kind, repr(_concrete_result(o.value)) if o.kind == "return" else repr(o.value), len(o.state.path)) for o in os_]
